@@ -41,7 +41,7 @@ LexN(x) == CASE x.kind = "term" -> [kind |-> "term", v |-> LexTree(x.v)]
              [] x.kind = "sentence" -> [kind |-> "sentence", v |-> LexSentence(x.v)]
              [] x.kind = "task" -> [kind |-> "task", v |-> [budget |-> x.v.b, sentence |-> LexSentence(x.v.s)]]
 EnumVals == {AsTerm(t) : t \in U1 \cup AtomsU0 \cup ImgWithLatePH \cup (IF TIER = "thorough" THEN U2rSet(0) ELSE Sample(U2rSet(0), 40, SEED))}
-            \cup (IF TIER = "thorough" THEN EnvelopeFullSet(0) ELSE EnvelopeQuickSet(0))
+            \cup (IF TIER = "thorough" THEN EnvelopeFullSet(0) ELSE EnvelopeQuickSet(0)) \cup RichEnvelopeSet(0)
 \* lexical values the enum model cannot express: derived copulas, uninterpreted arities, long truth / budget lists
 A1 == LAtom("", "a")
 LexOnly ==
